@@ -5,7 +5,7 @@
    unspecified order with an insertion-order parameter `ord`.  Determinism of the binary under
    address-space, allocator and environment perturbation is observed by the harness, not proved. *)
 From LedgerV Require Import Base.Prelude Base.Round Model.Amount Model.Xact Model.Journal
-  Proofs.AmountProofs Proofs.XactProofs Proofs.JournalProofs Proofs.OrderProofs.
+  Proofs.AmountProofs Proofs.XactProofs Proofs.JournalProofs Proofs.OrderProofs Proofs.CompareProofs.
 From Coq Require Import Permutation.
 Local Open Scope Q_scope.
 
@@ -61,6 +61,20 @@ Theorem expression_value_order_free : forall cp e v v' c,
   addsub_tree e = true -> aeval false cp e = Ok v -> aeval true cp e = Ok v' -> den v c == den v' c.
 Proof. exact aeval_addsub_order_free. Qed.
 Print Assumptions expression_value_order_free.
+
+(* ordering of a multi-commodity balance against a plain number (or integer): a value, never an error, and the same
+   value for every iteration order of the hash table.  (Against a commoditized amount the loop may meet a component
+   of another commodity - an error - before or after the component that decides: that case is order dependent in
+   the code and is kept out of the generators; see c03.py) *)
+Theorem balance_ordering_against_plain_number_order_free : forall w b b',
+  plain_scalar w -> Permutation b b' -> v_ltb (VBal b) w = v_ltb (VBal b') w.
+Proof. exact v_ltb_balance_plain_perm. Qed.
+Print Assumptions balance_ordering_against_plain_number_order_free.
+
+Theorem balance_ordering_against_plain_number_total : forall w b,
+  plain_scalar w -> exists r, bal_all_lt b w = Ok r.
+Proof. intros w b H. exact (bal_all_lt_plain_total w H b). Qed.
+Print Assumptions balance_ordering_against_plain_number_total.
 
 (* a model-level remark, not a finding: the two-commodity implied-rate branch takes "the first
    two" entries of the hash table and swaps them by the top posting's commodity; when the top
